@@ -197,9 +197,51 @@ def benign(prop, n, wt, checks=None):
     return meta['silent']
 
 
+
+def benign_retest(only=None):
+    """Regression of the no-false-alarm side: every kept property-preserving change is applied, one at a
+    time, to ONE scratch worktree of /repo's HEAD and the quick check of its property must stay silent."""
+    import glob
+
+    wt = '/tmp/wt_benign_retest'
+    sh(f'git -C /repo worktree remove --force {wt}')
+    rc, o = sh(f'git -C /repo worktree add -q --detach {wt} HEAD')
+    if rc != 0:
+        print('cannot create worktree', o)
+        return 2
+    loud = []
+    try:
+        for d in sorted(glob.glob(os.path.join(V, 'benign', '*-*'))):
+            sid = os.path.basename(d)
+            if only and sid not in only:
+                continue
+            meta = json.load(open(os.path.join(d, 'meta.json')))
+            prop = meta['preserves_property']
+            sh('git checkout -- .', cwd=wt)
+            rc, o = sh(f'git apply {os.path.join(d, "patch.diff")}', cwd=wt)
+            if rc != 0:
+                print(f'{sid}: patch no longer applies to HEAD (skipped)', flush=True)
+                continue
+            t0 = time.time()
+            rc, o = sh(f'./check {prop} --tier quick', cwd=V, env={'VERIF_SEED': os.environ.get('VERIF_SEED', '0'), 'VERIF_REPO': wt,
+                       'VERIF_EVIDENCE_DIR': '/tmp/seed_evidence', 'VERIF_REPLAY_DIR': '/tmp/seed_replays'})
+            print(f'benign {sid}: {prop} rc={rc} {time.time() - t0:.0f}s {o.strip().splitlines()[-1][:140] if o.strip() else ""}', flush=True)
+            if rc != 0:
+                loud.append(sid)
+                for l in [x for x in o.split('\n') if 'failing clauses' in x][:3]:
+                    print('     ', l[:300], flush=True)
+    finally:
+        sh('git checkout -- .', cwd=wt)
+        sh(f'git -C /repo worktree remove --force {wt}')
+    print('BENIGN-RETEST alarms:', loud, flush=True)
+    return 0 if not loud else 1
+
+
 if __name__ == '__main__':
     if sys.argv[1] == 'retest':
         sys.exit(retest(set(sys.argv[2:]) or None))
+    if sys.argv[1] == 'benign-retest':
+        sys.exit(benign_retest(set(sys.argv[2:]) or None))
     if sys.argv[1] == 'summary':
         summary()
         sys.exit(0)
